@@ -76,7 +76,8 @@ func ValidateResponse(ctx context.Context, input *ResponseValidationInput) error
 
 	headers := make([]string, 0, len(response.Headers))
 	for k := range response.Headers {
-		if k != headerCT {
+		// a response header definition named Content-Type (header names are case-insensitive) is to be ignored
+		if http.CanonicalHeaderKey(k) != headerCT {
 			headers = append(headers, k)
 		}
 	}
